@@ -26,6 +26,8 @@ def srcOps : CoreOps where
   front := Gen.front
   back := Gen.back
   asSlices := Gen.as_slices
+  remove := Gen.remove
+  makeContiguous := Gen.make_contiguous
 
 end CircBuf.Driver
 
